@@ -298,3 +298,6 @@ func Nop() {}
 
 // HTTPRequests returns the requests handed to the stubbed (*http.Client).Do (engine only).
 func HTTPRequests() []*http.Request { panic("verifrt.HTTPRequests: engine only") }
+
+// LastHTTPStatus returns the status the stubbed (*http.Client).Do answered last (engine only).
+func LastHTTPStatus() int { panic("verifrt.LastHTTPStatus: engine only") }
